@@ -22,6 +22,7 @@ import (
 	"os"
 	"runtime/pprof"
 	"sort"
+	"strings"
 	"sync"
 	"sync/atomic"
 	"time"
@@ -192,6 +193,22 @@ func finishPart(c *harness.Check, name string, t tally, complete bool, desc map[
 
 var t0 = time.Now()
 
+// want implements the development filter C10_PARTS=substr[,substr...]; a
+// filtered run is marked non-exhaustive.
+var partFilter []string
+
+func want(name string) bool {
+	if len(partFilter) == 0 {
+		return true
+	}
+	for _, f := range partFilter {
+		if strings.Contains(name, f) {
+			return true
+		}
+	}
+	return false
+}
+
 // ---------------------------------------------------------------------------
 
 func main() {
@@ -224,6 +241,10 @@ func main() {
 	}
 
 	deadline = time.Now().Add(harness.Pick(c, 15*time.Minute, 4*time.Hour))
+	if f := os.Getenv("C10_PARTS"); f != "" { // development aid
+		partFilter = strings.Split(f, ",")
+		c.Cap("development filter C10_PARTS=" + f + ": only matching parts were run")
+	}
 	if p := os.Getenv("C10_CPUPROFILE"); p != "" { // development aid
 		f, err := os.Create(p)
 		if err != nil {
